@@ -142,17 +142,20 @@ YmRouteCls(r) ==
     [] r.k = "new" -> "new" \o (IF Sup(r, "rd") THEN "+ref" ELSE "") \o "/" \o LimitTag(r.y, r.m) \o "/" \o r.ovf
     [] r.k = "with" -> "with/" \o Cls("yearmonth", "with", r.recv, r.p, r.ovf)
 MdRouteCls(r) ==
-  LET feb == IF r.m = 2 /\ r.d = 29 THEN "/feb29" ELSE ""
-  IN CASE r.k = "str" -> "str/" \o r.f \o feb
-       [] r.k = "date" -> "date" \o feb
-       [] r.k = "new" -> IF Sup(r, "ry") THEN "new+ref" \o (IF ~YearOK(r.ry) THEN "/beyond" ELSE feb) \o "/" \o r.ovf
-                         ELSE "new" \o feb \o "/" \o r.ovf
+  LET Feb(m, d) == IF m = 2 /\ d = 29 THEN "/feb29" ELSE ""
+  IN CASE r.k = "str" -> "str/" \o r.f \o Feb(r.m, r.d)
+       [] r.k = "date" -> "date" \o Feb(r.d.m, r.d.d)
+       [] r.k = "new" -> IF Sup(r, "ry") THEN "new+ref" \o (IF ~YearOK(r.ry) THEN "/beyond" ELSE Feb(r.m, r.d)) \o "/" \o r.ovf
+                         ELSE "new" \o Feb(r.m, r.d) \o "/" \o r.ovf
 \* comparisons of two routes: which special kinds of route take part
 CmpTag(kind, r) == IF kind = "ym" THEN (IF Explicit(r) THEN "explicit" ELSE IF r.k = "partial" /\ Sup(r.p, "day") THEN "partial+day" ELSE "plain")
                    ELSE (IF MdExplicit(r) THEN "explicit" ELSE "plain")
 CmpCls(kind, a, b) == LET ta == CmpTag(kind, a)  tb == CmpTag(kind, b)
                       IN IF ta = tb THEN ta ELSE IF ta = "plain" THEN tb \o "~plain" ELSE IF tb = "plain" THEN ta \o "~plain" ELSE "explicit~partial+day"
+RefIsDate(v) == DateInLimits(Date(v.y, v.m, v.rd))
 ArithCls(recv, other) ==
   (IF recv.rd # 1 \/ other.rd # 1 THEN "explicit-ref" ELSE "canonical") \o "/"
-  \o (IF ~FirstIsDate(recv.y, recv.m) \/ ~FirstIsDate(other.y, other.m) THEN "min-month" ELSE "in-range")
+  \o (IF ~FirstIsDate(recv.y, recv.m) \/ ~FirstIsDate(other.y, other.m) THEN "min-month"
+      ELSE IF ~RefIsDate(recv) \/ ~RefIsDate(other) THEN "ref-not-a-date"      \* explicit reference day after +275760-09-13
+      ELSE "in-range")
 =============================================================================
